@@ -102,8 +102,8 @@ theorem lstep_spec {cfg : Cfg} {c : Cache} (h : CacheOK cfg c) (t : Tid) (fm : L
 /-- thread `u` alone, with the class cache replaced by its specification -/
 def soloSpec (cfg : Cfg) (u : Tid) : List Act → TS → TS × List Out
   | [], ts => (ts, [])
-  | .op o :: as, ts =>
-    let r := lstepSpec cfg u [] o ts
+  | .op o fm :: as, ts =>
+    let r := lstepSpec cfg u fm o ts
     let r2 := soloSpec cfg u as r.1
     (r2.1, r.2 :: r2.2)
   | .born :: as, ts => soloSpec cfg u as (if ts.phase = .unborn ∨ ts.phase = .done then { ts with phase := .ready } else ts)
@@ -116,8 +116,8 @@ theorem solo_eq_spec (cfg : Cfg) (u : Tid) (as : List Act) :
     intro c ts hc
     cases a with
     | born => simp only [solo, soloSpec]; exact ih c _ hc
-    | op o =>
-      have h := lstep_spec hc u [] o ts
+    | op o fm =>
+      have h := lstep_spec hc u fm o ts
       simp only [solo, soloSpec]
       rw [ih _ _ h.2, ← h.1]
 
@@ -143,6 +143,14 @@ theorem step_sync_frame (cfg : Cfg) (g : G) (e : Ev) (h1 : ∀ t op, e ≠ .loc 
   | rd t u => simp only [step]; split <;> exact ⟨rfl, rfl⟩
   | bind t u => simp only [step]; split; exact ⟨rfl, rfl⟩; split <;> exact ⟨rfl, rfl⟩
   | rdo t u =>
+    simp only [step]
+    split
+    · exact ⟨rfl, rfl⟩
+    · split
+      · exact ⟨rfl, rfl⟩
+      · split <;> exact ⟨rfl, rfl⟩
+  | arg t u os => simp only [step]; split; exact ⟨rfl, rfl⟩; split <;> exact ⟨rfl, rfl⟩
+  | rdarg t i =>
     simp only [step]
     split
     · exact ⟨rfl, rfl⟩
@@ -418,6 +426,8 @@ theorem run_proj (cfg : Cfg) (u : Tid) (s : List Ev) : ∀ g : G, CacheOK cfg g.
     | rd t w => exact sync (by intros; simp) (by intros; simp) (by intros; simp)
     | bind t w => exact sync (by intros; simp) (by intros; simp) (by intros; simp)
     | rdo t w => exact sync (by intros; simp) (by intros; simp) (by intros; simp)
+    | arg t w os => exact sync (by intros; simp) (by intros; simp) (by intros; simp)
+    | rdarg t i => exact sync (by intros; simp) (by intros; simp) (by intros; simp)
 
 
 theorem run_append (cfg : Cfg) (s1 s2 : List Ev) : ∀ g : G,
@@ -453,6 +463,10 @@ theorem step_inside (cfg : Cfg) (g : G) (e : Ev) (t : Tid) (m : Nat) :
                  all_goals simp [inside]
   | rdo t' u => simp only [step]; repeat' split
                 all_goals simp [inside]
+  | arg t' u os => simp only [step]; repeat' split
+                   all_goals simp [inside]
+  | rdarg t' i => simp only [step]; repeat' split
+                  all_goals simp [inside]
   | winc t' m' c =>
     simp only [step]
     split
@@ -578,6 +592,12 @@ theorem step_done (cfg : Cfg) (g : G) (e : Ev) (u : Tid) (hd : (g.thr u).phase =
     refine ⟨sync _ (by intros; simp) (by intros; simp) (by intros; simp), ?_⟩
     intro ht; simp only [Ev.tid] at ht; subst ht; simp [step, hnr]
   | rdo t w =>
+    refine ⟨sync _ (by intros; simp) (by intros; simp) (by intros; simp), ?_⟩
+    intro ht; simp only [Ev.tid] at ht; subst ht; simp [step, hnr]
+  | arg t w os =>
+    refine ⟨sync _ (by intros; simp) (by intros; simp) (by intros; simp), ?_⟩
+    intro ht; simp only [Ev.tid] at ht; subst ht; simp [step, hnr]
+  | rdarg t i =>
     refine ⟨sync _ (by intros; simp) (by intros; simp) (by intros; simp), ?_⟩
     intro ht; simp only [Ev.tid] at ht; subst ht; simp [step, hnr]
 
@@ -814,6 +834,8 @@ theorem step_own (cfg : Cfg) (g : G) (e : Ev) (h : ∀ t, Own t (g.thr t)) : ∀
   | rd t w => exact sync _ (by intros; simp) (by intros; simp) (by intros; simp)
   | bind t w => exact sync _ (by intros; simp) (by intros; simp) (by intros; simp)
   | rdo t w => exact sync _ (by intros; simp) (by intros; simp) (by intros; simp)
+  | arg t w os => exact sync _ (by intros; simp) (by intros; simp) (by intros; simp)
+  | rdarg t i => exact sync _ (by intros; simp) (by intros; simp) (by intros; simp)
 
 theorem run_own (cfg : Cfg) (s : List Ev) : ∀ g : G, (∀ t, Own t (g.thr t)) → ∀ t, Own t ((run cfg s g).1.thr t) := by
   induction s with
@@ -1108,6 +1130,16 @@ theorem step_live_nocrash (cfg : Cfg) (hgf : cfg.gcFirst = true) (g : G) (e : Ev
     repeat' split
     all_goals simp
   | rdo t w =>
+    refine ⟨sync _ (by intros; simp) (by intros; simp) (by intros; simp), ?_⟩
+    simp only [step]
+    repeat' split
+    all_goals simp
+  | arg t w os =>
+    refine ⟨sync _ (by intros; simp) (by intros; simp) (by intros; simp), ?_⟩
+    simp only [step]
+    repeat' split
+    all_goals simp
+  | rdarg t i =>
     refine ⟨sync _ (by intros; simp) (by intros; simp) (by intros; simp), ?_⟩
     simp only [step]
     repeat' split
